@@ -28,5 +28,6 @@ def run(prog, chk):
     C.unlink_idiom(prog, chk, "C04.g", ("List", "Map", "MultiMap", "HashMap", "HashSet"))
     # ... and clear() leaves no pointer to a destroyed node behind (list ends, sentinel back pointer, root, buckets)
     C.clear_resets(prog, chk, "C04.h", tuple(C.NODE))
+    C.counting_against_moving_bound(prog, chk, "C04.i", tuple(C.NODE) + ("Array",))
     # copies re-insert into the destination's own bucket array: its size and the count used for indexing must stay in agreement
     C.bucket_index(prog, chk, "C04.i", ("HashMap", "HashSet"))
